@@ -169,13 +169,28 @@ func init() {
 			}
 			return Bool{t: fmt.Sprintf("(bvult %s %s)", x.term(), y.term())}
 		},
-		"havocHook": func(m *M, fn *ssa.Function, a []Value) Value { return nil },
+		"havocHook":   func(m *M, fn *ssa.Function, a []Value) Value { return nil },
+		"lazyMapHook": func(m *M, fn *ssa.Function, a []Value) Value { return nil },
 		"Havoc": func(m *M, fn *ssa.Function, a []Value) Value {
 			ta := fn.TypeArgs()
 			if len(ta) != 1 {
 				panic(engineErr("Havoc without type argument"))
 			}
 			return m.force(Lazy{ta[0], symName(m, a[0])})
+		},
+		"Resolved": func(m *M, fn *ssa.Function, a []Value) Value {
+			i := m.force(a[0]).(Iface)
+			return cBool(i.u == nil || i.u.resolved)
+		},
+		"LazyMap": func(m *M, fn *ssa.Function, a []Value) Value {
+			uni := m.force(a[0]).(Slice)
+			gen := m.force(a[1]).(Closure)
+			mo := &MapObj{lazyGen: &gen}
+			for _, u := range m.sliceElems(uni) {
+				mo.universe = append(mo.universe, copyVal(m.force(u)))
+			}
+			mo.asked = make([]bool, len(mo.universe))
+			return Ptr{obj: m.newObj(mo)}
 		},
 		"HavocInto": func(m *M, fn *ssa.Function, a []Value) Value {
 			i := m.resolveIface(m.force(a[0]).(Iface))
@@ -256,6 +271,9 @@ func init() {
 			return nameVal(v)
 		},
 		"Same": func(m *M, fn *ssa.Function, a []Value) Value {
+			if x0, y0 := m.force(a[0]).(Iface), m.force(a[1]).(Iface); x0.u != nil && x0.u == y0.u {
+				return cBool(true) // the very same havoced value, whatever its dynamic type turns out to be
+			}
 			x, y := m.resolveIface(m.force(a[0]).(Iface)), m.resolveIface(m.force(a[1]).(Iface))
 			if x.t == nil || y.t == nil {
 				return cBool(x.t == nil && y.t == nil)
@@ -398,6 +416,41 @@ func init() {
 			m.lazyMemo[key] = cBool(true)
 			cl := m.force(a[1]).(Closure)
 			m.callImpl(cl.fn, nil, cl.fv)
+			return nil
+		},
+		"(*sync.Map).Load": func(m *M, fn *ssa.Function, a []Value) Value {
+			mo := m.syncMap(a[0])
+			if i := m.mapFind(mo, a[1]); i >= 0 {
+				return Tuple{copyVal(mo.vals[i]), cBool(true)}
+			}
+			return Tuple{Iface{}, cBool(false)}
+		},
+		"(*sync.Map).Store": func(m *M, fn *ssa.Function, a []Value) Value {
+			mo := m.syncMap(a[0])
+			if i := m.mapFind(mo, a[1]); i >= 0 {
+				mo.vals[i] = copyVal(a[2])
+			} else {
+				mo.keys, mo.vals = append(mo.keys, copyVal(m.force(a[1]))), append(mo.vals, copyVal(a[2]))
+			}
+			return nil
+		},
+		"(*sync.Map).LoadOrStore": func(m *M, fn *ssa.Function, a []Value) Value {
+			mo := m.syncMap(a[0])
+			if i := m.mapFind(mo, a[1]); i >= 0 {
+				return Tuple{copyVal(mo.vals[i]), cBool(true)}
+			}
+			mo.keys, mo.vals = append(mo.keys, copyVal(m.force(a[1]))), append(mo.vals, copyVal(a[2]))
+			return Tuple{a[2], cBool(false)}
+		},
+		"(*sync.Map).Range": func(m *M, fn *ssa.Function, a []Value) Value {
+			mo := m.syncMap(a[0])
+			cl := m.force(a[1]).(Closure)
+			for i := range mo.keys {
+				r := m.callImpl(cl.fn, []Value{mo.keys[i], mo.vals[i]}, cl.fv)
+				if !m.branch(r.(Bool)) {
+					break
+				}
+			}
 			return nil
 		},
 		"errors.As":                      errorsAs,
@@ -659,4 +712,21 @@ func errorsIs(m *M, fn *ssa.Function, a []Value) Value {
 		return false
 	}
 	return cBool(walk(err))
+}
+
+// syncMap: side table for sync.Map objects, keyed by the address of the Map value.
+func (m *M) syncMap(v Value) *MapObj {
+	p := m.force(v).(Ptr)
+	if p.obj == nil {
+		panic(goPanic{msg: "invalid memory address or nil pointer dereference (sync.Map)"})
+	}
+	key := fmt.Sprintf("syncmap:%d%v", p.obj.id, p.path)
+	if g, ok := m.lazyMemo[key]; ok {
+		return g.(Ptr).obj.v.(*MapObj)
+	}
+	mo := &MapObj{}
+	o := m.newObj(mo)
+	o.ghost = p.obj.ghost
+	m.lazyMemo[key] = Ptr{obj: o}
+	return mo
 }
